@@ -32,17 +32,17 @@ func cfgFor(prop, tier string) tierCfg {
 	switch prop {
 	case "C15":
 		if quick {
-			return tierCfg{pool: 420, scenarios: 260, profile: Profile{MaxLen: 330, MaxRSEcc: 68, ScaleMax: 160}, maxOps: 50, budget: 4 * time.Minute, shrinkEvals: 120, boundaryGroups: 10}
+			return tierCfg{pool: 420, scenarios: 520, profile: Profile{MaxLen: 330, MaxRSEcc: 68, ScaleMax: 160}, maxOps: 50, budget: 4 * time.Minute, shrinkEvals: 120, boundaryGroups: 10}
 		}
 		return tierCfg{pool: 5000, scenarios: 9000, profile: Profile{MaxLen: 2960, MaxRSEcc: 200, ScaleMax: 400, HeavyTail: true}, maxOps: 250, budget: 50 * time.Minute, shrinkEvals: 300, boundaryGroups: 40}
 	case "C16":
 		if quick {
-			return tierCfg{pool: 360, scenarios: 300, raceFrac: 0.3, profile: Profile{MaxLen: 110, MaxRSEcc: 68, ScaleMax: 120}, maxOps: 4, maxW: []int{2, 2, 3, 4, 4, 8, 16}, budget: 4 * time.Minute, shrinkEvals: 120, boundaryGroups: 10}
+			return tierCfg{pool: 360, scenarios: 420, raceFrac: 0.3, profile: Profile{MaxLen: 110, MaxRSEcc: 68, ScaleMax: 120}, maxOps: 4, maxW: []int{2, 2, 3, 4, 4, 8, 16}, budget: 4 * time.Minute, shrinkEvals: 120, boundaryGroups: 10}
 		}
 		return tierCfg{pool: 3000, scenarios: 10000, raceFrac: 0.3, profile: Profile{MaxLen: 700, MaxRSEcc: 200, ScaleMax: 250, HeavyTail: true}, maxOps: 6, maxW: []int{2, 2, 3, 4, 8, 8, 16, 32, 64}, budget: 60 * time.Minute, shrinkEvals: 300, boundaryGroups: 40}
 	default: // C18
 		if quick {
-			return tierCfg{scenarios: 220, raceFrac: 0.2, maxOps: 80, maxW: []int{1, 1, 1, 2, 3}, maxBits: 120_000, budget: 3 * time.Minute, shrinkEvals: 150}
+			return tierCfg{scenarios: 300, raceFrac: 0.2, maxOps: 80, maxW: []int{1, 1, 1, 2, 3}, maxBits: 120_000, budget: 3 * time.Minute, shrinkEvals: 150}
 		}
 		return tierCfg{scenarios: 6000, raceFrac: 0.2, maxOps: 1500, maxW: []int{1, 1, 2, 3, 4}, maxBits: 400_000, budget: 40 * time.Minute, shrinkEvals: 400}
 	}
@@ -173,6 +173,50 @@ func genC15(seed uint64, cfg tierCfg) ([]*Scenario, []Call) {
 			} else {
 				focus[i] = r.intn(len(pool))
 			}
+		}
+		// neighbour drill: one encoder, the same parameters, contents that are prefixes of one master
+		// string with lengths n-3 .. n+4 — consecutive calls that differ by one or two characters
+		// (fast paths keyed on "same as last time", grids and modes carried over from the previous call)
+		if r.chance(0.12) {
+			fam := families[r.intn(len(families))]
+			np := cfg.profile
+			if np.MaxLen > 300 {
+				np.MaxLen = 300
+			}
+			base := genFamily(r, np, fam)
+			for len(base.B) < 8 {
+				base.B = append(base.B, base.B...)
+				if len(base.B) == 0 {
+					base.B = []byte("12345678")
+				}
+			}
+			master := append(append([]byte(nil), base.B...), base.B...)
+			n0 := len(base.B)
+			var group []Call
+			for d := -3; d <= 4; d++ {
+				if n0+d < 1 || n0+d > len(master) {
+					continue
+				}
+				c := base
+				c.B = append([]byte(nil), master[:n0+d]...)
+				group = append(group, c)
+			}
+			for si := 0; si < nseg; si++ {
+				var prog []Call
+				for rep := r.rangeIn(1, 3); rep > 0; rep-- {
+					perm := append([]Call(nil), group...)
+					for i := len(perm) - 1; i > 0; i-- {
+						j := r.intn(i + 1)
+						perm[i], perm[j] = perm[j], perm[i]
+					}
+					for _, c := range perm {
+						prog = append(prog, withHistoryAttrs(r, c, 2, 0.7))
+					}
+				}
+				sc.Segments = append(sc.Segments, Segment{Kind: "calls", Seed: r.next(), Policy: genPolicy(r, 20000), MapMode: r.intn(5), Phases: [][][]Call{{prog}}})
+			}
+			scs = append(scs, sc)
+			continue
 		}
 		// a quarter of the histories drill one encoder family: valid and corrupted
 		// siblings back to back, so that whatever an error path leaves behind meets
